@@ -45,7 +45,14 @@ IsDense(rk) ==
     /\ rk # <<>> => rk[1] = 1
     /\ \A i \in 1 .. Len(rk) - 1 : rk[i+1] = rk[i] \/ rk[i+1] = rk[i] + 1
 
-WellFormed(I) ==
+(* Shaped: the record has the form of an instance; the NUMBERS need not be   *)
+(* ordered (a file may state a target above the upper quota: the reader has *)
+(* to read it as written, C10).  WellFormed adds the ordering of quotas and *)
+(* targets that the solving properties presuppose.                          *)
+NumbersOrdered(I) ==
+    /\ \A p \in P(I) : I.plq[p] <= I.puq[p]
+    /\ \A l \in L(I) : I.llq[l] <= I.lt[l] /\ I.lt[l] <= I.luq[l]
+Shaped(I) ==
     /\ I.ns >= 1 /\ I.np >= 1 /\ I.nl >= 1
     /\ Len(I.prefs) = I.ns /\ Len(I.ranks) = I.ns
     /\ \A s \in S(I) :
@@ -54,15 +61,17 @@ WellFormed(I) ==
           /\ Len(I.ranks[s]) = Len(I.prefs[s])
           /\ IsDense(I.ranks[s])
     /\ Len(I.plq) = I.np /\ Len(I.puq) = I.np /\ Len(I.plec) = I.np
-    /\ \A p \in P(I) : 0 <= I.plq[p] /\ I.plq[p] <= I.puq[p] /\ I.plec[p] \in L(I)
+    /\ \A p \in P(I) : 0 <= I.plq[p] /\ 0 <= I.puq[p] /\ I.plec[p] \in L(I)
     /\ Len(I.llq) = I.nl /\ Len(I.lt) = I.nl /\ Len(I.luq) = I.nl
-    /\ \A l \in L(I) : 0 <= I.llq[l] /\ I.llq[l] <= I.lt[l] /\ I.lt[l] <= I.luq[l]
+    /\ \A l \in L(I) : 0 <= I.llq[l] /\ 0 <= I.lt[l] /\ 0 <= I.luq[l]
     /\ Len(I.lrank) = I.nl
     /\ \A l \in L(I) : Len(I.lrank[l]) = I.ns
     /\ I.two =>
          \A l \in L(I) : \A s \in S(I) :
             (I.lrank[l][s] # 0) <=> (\E p \in Rng(I.prefs[s]) : I.plec[p] = l)
     /\ ~I.two => \A l \in L(I) : \A s \in S(I) : I.lrank[l][s] = 0
+
+WellFormed(I) == Shaped(I) /\ NumbersOrdered(I)
 
 -----------------------------------------------------------------------------
 (* Matchings, validity, stability.                                         *)
